@@ -1,6 +1,8 @@
 /- The model's side of every regenerated fact: constants and finite tables computed from the model. -/
 import RV.Model.Wire
 import RV.Model.Auth
+import RV.Model.Codec
+import RV.Model.Password
 namespace RV.Facts.Expected
 open RV
 
@@ -9,5 +11,26 @@ def outOfRangeCodes : List Int := [-2, -1, 256, 257, 258, 260, 267, 268, 296, 29
 def encodeClass : List Nat := (List.range 256).map (fun c => (RV.encodeClass (Int.ofNat c)).toNat)
 def requestClass : List Nat := (List.range 256).map (fun c => (RV.requestClass c).toNat)
 def encodeClassOutOfRange : List Nat := outOfRangeCodes.map (fun c => (RV.encodeClass c).toNat)
+
+
+/-! lengths 0..300 accepted by the model's decoders / encoders (content does not matter for these) -/
+def lens (p : Nat → Bool) : List Nat := (List.range 301).filter p
+
+def acceptShort : List Nat := lens fun n => (RV.short (zeros n)).isOk
+def acceptInteger : List Nat := lens fun n => (RV.integer (zeros n)).isOk
+def acceptInteger64 : List Nat := lens fun n => (RV.integer64 (zeros n)).isOk
+def acceptIPAddr : List Nat := lens fun n => (RV.ipAddr (zeros n)).isOk
+def acceptIPv6Addr : List Nat := lens fun n => (RV.ipv6Addr (zeros n)).isOk
+def acceptIFID : List Nat := lens fun n => (RV.ifid (zeros n)).isOk
+def acceptDate : List Nat := lens fun n => (RV.date (zeros n)).isOk
+def acceptVSA : List Nat := lens fun n => (RV.vendorSpecific (zeros n)).isOk
+def encString : List Nat := lens fun n => (RV.newString (zeros n)).isOk
+def encBytes : List Nat := lens fun n => (RV.newBytes (zeros n)).isOk
+def encVSA : List Nat := lens fun n => (RV.newVendorSpecific 9 (zeros n)).isOk
+def encTLV : List Nat := lens fun n => (RV.newTLV 1 (zeros n)).isOk
+/-- the length guards of the password functions (the hash does not matter for acceptance) -/
+def encUserPassword : List Nat := lens fun n => (RV.newUserPassword (fun _ => zeros 16) (zeros n) [1] (zeros 16)).isOk
+def acceptUserPassword : List Nat := lens fun n => (RV.userPassword (fun _ => zeros 16) (zeros n) [1] (zeros 16)).isOk
+def encTunnelPassword : List Nat := lens fun n => (RV.newTunnelPassword (fun _ => zeros 16) (zeros n) [0x80, 1] [1] (zeros 16)).isOk
 
 end RV.Facts.Expected
